@@ -294,7 +294,7 @@ func VerifH_mestep() {
 			}
 			verifAssert(v1.listed[i] == in, "C13: endpoint set differs from the accepted list")
 			if in && v0.listed[i] {
-				verifAssert(v1.status[i] == v0.status[i] && m.endpoints[vName(i)] == w.eps[i], "C13: SetEndpoints did not preserve a kept endpoint and its state")
+				verifAssert(v1.status[i] == v0.status[i] && m.endpoints[vName(i)] == w.eps[i], "C13,C14: SetEndpoints did not preserve a kept endpoint object and its state (pending recovery timers refer to the object)")
 			}
 			if in && !v0.listed[i] {
 				want := unavailable
@@ -387,7 +387,7 @@ func VerifH_mestep() {
 			}
 		}
 	}
-	verifAssert(w.conv(), "C14: convergence: current is not the top available endpoint and nothing pending will bring it there")
+	verifAssert(w.conv(), "C13,C14: convergence: current is not the top available endpoint and nothing pending (recovery window running out, delayed switch) will bring it there")
 	verifObserve("cur", uint64(v1.cur))
 	verifObserve("timers", uint64(len(vTimers)))
 }
